@@ -169,6 +169,9 @@ func runCheck(prop, tier string, seed int) (exit int) {
 					c.Trusted[t] += n
 				}
 				for k, n := range x.Stats {
+					if os.Getenv("SNESVC_DEBUG") != "" && strings.HasPrefix(k, "mergefail") {
+						fmt.Fprintf(os.Stderr, "DBG %s: %s x%d\n", res.Fn, k, n)
+					}
 					if strings.HasPrefix(k, "global_store") {
 						c.Notes = append(c.Notes, fmt.Sprintf("store to package-level state outside init: %s (%d)", k, n))
 					}
